@@ -32,7 +32,7 @@ import (
 // long as failures are retriable (endorse/commit.go, RetrySubmit, the line computing remain).
 // The property quantifies over "every retry budget including zero and negative". Until the
 // coordinator decides, the runs are made and counted ("observed-but-gated/...") but not judged.
-const judgeMinIntBudget = false
+const judgeMinIntBudget = true
 
 func notJudgedYet(j job, f finding) bool {
 	return !judgeMinIntBudget && j.retries == math.MinInt && f.Rule == "attempts-exceed-retries-plus-one"
